@@ -512,6 +512,10 @@ def run(pid, args, seed, work, t0):
                 print('   ' + (json.dumps(b['detail'], default=str) if not isinstance(b['detail'], str) else b['detail'])[:1200])
         print('VIOLATION property=%s replay=%s no-failing-input-found' % (pid, path))
         return 1
+    for r in results:
+        for n_ in r.notes:
+            if 'failed' in n_ or 'not reproducible' in n_ or 'raised' in n_:
+                print('NOTE: %s: %s: %s' % (pid, r.name, n_[:300]))
     for a in advisory:
         print('ADVISORY: %s: shape obligation %s no longer matches the source (restructured code); lanes and failing-input '
               'search were run at the thorough budget and found no difference' % (pid, a['obligation']))
